@@ -29,4 +29,60 @@ def results_in_range_statement : Prop :=
   ∀ (z : Zone) (h : Nat) (cs : Fields), Tame z → Valid cs → inI64 cs.y →
     inI64 (makeTime z h cs).val.1.pre ∧ inI64 (makeTime z h cs).val.1.trans ∧ inI64 (makeTime z h cs).val.1.post
 
+
+/-! ## proofs
+
+`Tame` is exactly one second too weak for `breakTime_ok_statement`: `Tame.ext` allows the last entry of
+a rule-extended table to be *equal* to `INT64_MAX mod kSecsPer400Years = 7161147007`
+(2196-12-04 15:30:07 UTC), and then `BreakTime(max())` computes `shift = 730692562` and
+`shift * kSecsPer400Years` overflows.  `breakTime_ok_counterexample` exhibits such a tame table;
+`breakTime_ok_partial` proves the statement for `Qo.Tame'` (strict inequality), and
+`breakTime_ok_below_max` / `breakTime_ok_nonextended` show that on `Tame` tables `max()` on an extended
+table is the only failing input.  The other four statements hold for `Tame` as stated. -/
+
+/-- the tame table `Qo.zBoundary` (UTC, sentinel entry, last entry 7161147007, extended up to 2196)
+raises `ovf` in `BreakTime(max())` -/
+theorem breakTime_ok_counterexample : ¬ breakTime_ok_statement := fun h =>
+  Qo.zBoundary_not_ok 0 (h Qo.zBoundary 0 i64max Qo.zBoundary_tame (by decide))
+
+def breakTime_ok_partial_statement : Prop :=
+  ∀ (z : Zone) (h : Nat) (t : Int), Qo.Tame' z → inI64 t → (breakTime z h t).ok
+
+theorem breakTime_ok_partial : breakTime_ok_partial_statement := fun _ h t tm ht =>
+  Qo.breakTime_ok_of tm.toTame tm.extStrict h t ht
+
+example : Qo.Tame' Qo.zBeyond ∧ inI64 i64max := ⟨Qo.zBeyond_tame', by decide⟩
+
+/-- with `Tame` as given: every instant except `max()` -/
+def breakTime_ok_below_max_statement : Prop :=
+  ∀ (z : Zone) (h : Nat) (t : Int), Tame z → inI64 t → t < i64max → (breakTime z h t).ok
+
+theorem breakTime_ok_below_max : breakTime_ok_below_max_statement := fun _ h t tm ht hlt =>
+  Qo.breakTime_ok_below tm h t ht hlt
+
+example : Tame Qo.zBoundary ∧ inI64 (i64max - 1) ∧ i64max - 1 < i64max :=
+  ⟨Qo.zBoundary_tame, by decide, by decide⟩
+
+/-- with `Tame` as given: every instant on tables that are not rule-extended -/
+def breakTime_ok_nonextended_statement : Prop :=
+  ∀ (z : Zone) (h : Nat) (t : Int), Tame z → z.extended = false → inI64 t → (breakTime z h t).ok
+
+theorem breakTime_ok_nonextended : breakTime_ok_nonextended_statement := fun _ h t tm hne ht =>
+  Qo.breakTime_ok_nonext tm hne h t ht
+
+theorem makeTime_ok : makeTime_ok_statement := fun _ h cs tm vcs hy =>
+  Qo.makeTime_ok_of tm h cs vcs hy
+
+example : Tame Qo.zBoundary ∧ Valid ⟨i64max, 12, 31, 23, 59, 59⟩ ∧
+    inI64 (⟨i64max, 12, 31, 23, 59, 59⟩ : Fields).y := ⟨Qo.zBoundary_tame, by decide, by decide⟩
+
+theorem convert_ok : convert_ok_statement := fun _ h cs tm vcs hy =>
+  Qo.convert_ok_of tm h cs vcs hy
+
+theorem transitions_ok : transitions_ok_statement := fun _ t tm _ =>
+  ⟨Qo.nextTransition_ok_of tm t, Qo.prevTransition_ok_of tm t⟩
+
+theorem results_in_range : results_in_range_statement := fun _ h cs tm vcs hy =>
+  Qo.makeTime_inRange tm h cs vcs hy
+
 end Cctz.C10Safe
